@@ -1169,11 +1169,18 @@ class Exec:
             del s2.blocks[blk]
             s2.events[-1] = 'alloc -> null'
             return [(st, 'ret', BlockPtr(blk)), (s2, 'ret', NullPtr())]
+        if re.match(r'Box::<.*>::into_raw', c):
+            b = args[0]
+            if isinstance(b, BoxVal) and isinstance(b.ptr, BlockPtr) and b.ptr.block in st.blocks:
+                st.blocks[b.ptr.block] = 'allocated'      # owned by a raw pointer now: nobody frees it unless it is re-boxed
+                st.events.append('Box::into_raw(%s)' % b.ptr.block.name)
+                return R(b.ptr)
+            return R(b.ptr if isinstance(b, BoxVal) else b)
         if re.match(r'Box::<.*>::from_raw', c):
             p = args[0]
             if isinstance(p, BlockPtr) and p.block in st.blocks:
                 st.blocks[p.block] = 'boxed'
-            return R(BoxVal(p))
+            return R(BoxVal(p, init=not c.startswith('Box::<MaybeUninit<')))
         # ---- iterator adaptors over slices / sources
         if re.search(r'<impl \[.*\]>::iter(_mut)?$', c):
             sl = args[0]
